@@ -124,7 +124,7 @@ func contractsFor(eng *Eng, id string) ([]funcTask, []*Lemma, []string) {
 			if con.Trusted || con.hasClause("summary") {
 				continue
 			}
-			serves := false
+			serves := id == "C14" // ownership, locking and no-panic obligations of every function under contract
 			for _, c := range con.Clauses {
 				for _, p := range propsOfLabel(c.Label) {
 					if p == id {
@@ -240,6 +240,20 @@ func runCheck(eng *Eng, id, tier string, replay, keep bool, only string) int {
 		}
 		allObls = append(allObls, t.obls...)
 	}
+	if id == "C14" {
+		var f []*Obligation
+		for _, o := range allObls {
+			switch o.Kind {
+			case "guarded", "lock", "frozen", "nil", "bounds", "div0", "typeassert", "nilcall", "dyntype", "closeclosed", "monitor", "chan":
+				f = append(f, o)
+			default:
+				if strings.HasPrefix(o.Label, "C14") {
+					f = append(f, o)
+				}
+			}
+		}
+		allObls = f
+	}
 	if only != "" {
 		var f []*Obligation
 		for _, o := range allObls {
@@ -250,6 +264,7 @@ func runCheck(eng *Eng, id, tier string, replay, keep bool, only string) int {
 		allObls = f
 	}
 	kf := loadKnownFindings()
+	loadPropNotes()
 	// discharge
 	var wg sync.WaitGroup
 	sem := make(chan struct{}, 6)
@@ -450,6 +465,18 @@ func relFiles(fs []string) []string {
 }
 
 var propNotes = map[string][]string{}
+
+// prop_notes.json: per property, what the check leaves undecided and the readings it takes (copied into the evidence).
+func loadPropNotes() {
+	data, err := os.ReadFile(filepath.Join(verifDir, "prop_notes.json"))
+	if err != nil {
+		data, err = os.ReadFile("/verif/prop_notes.json")
+		if err != nil {
+			return
+		}
+	}
+	json.Unmarshal(data, &propNotes)
+}
 
 // query renders the SMT-LIB text for one obligation.
 func (t *Task) query(o *Obligation, extra []string) string {
